@@ -4,7 +4,8 @@
    What is data in the code — every method's URL expression, option formats and ranges, the
    status chain of getFromAPI, the count guards, NotFound's type — is NOT written here: it is
    read from gen/GenOsmapi.v (regenerated from /repo by translator/cmd/osmapi on every run)
-   and interpreted by [eval] / [get_from_api] / [select] below.  Hand-modelled and tied by
+   and interpreted by [eval] / [get_from_api_w] (the interpreter of getFromAPI's generated
+   effect sequence) / [select] below.  Hand-modelled and tied by
    correspondence only: fmt.Sprintf verbs %s %d %f %v, strconv.AppendInt, time.Format,
    url.QueryEscape (Text.v), net/http as a request trace, encoding/xml as "the body is a
    list of (kind, id) elements or malformed".  Definitions only. *)
@@ -266,31 +267,6 @@ Definition status_error (code : Z) : errv :=
   | None => if code =? status_ok then None else Some status_other
   end.
 
-Definition get_from_api (lim : limiter) (url : str) (target : string) (resp : response)
-  : list event * errv * option decoded :=
-  let request := EvRequest http_method url in
-  let after_request :=
-    match status_error (r_status resp) with
-    | Some t => (Some t, None)
-    | None => match decode target (r_body resp) with
-              | Some d => (None, Some d)
-              | None => (Some ""%string, None)
-              end
-    end in
-  let wait_ok := match lim with LimiterFails => false | _ => true end in
-  match lim, wait_before_do with
-  | NoLimiter, _ => ([request], fst after_request, snd after_request)
-  | _, true =>
-      if wait_ok || negb wait_error_returns
-      then ([EvWait; request], fst after_request, snd after_request)
-      else ([EvWait], Some ""%string, None)
-  | _, false =>
-      (* (not the current source) Wait after the request *)
-      if wait_ok || negb wait_error_returns
-      then ([request; EvWait], fst after_request, snd after_request)
-      else ([request; EvWait], Some ""%string, None)
-  end.
-
 (* ---------- result selection ---------- *)
 
 Definition field_kind (f : string) : option Z :=
@@ -358,26 +334,6 @@ Record outcome := {
 Definition bad_outcome : outcome :=
   {| o_trace := []; o_err := None; o_data := None; o_panic := false; o_bad := true |}.
 
-Definition call (configured : str) (lim : limiter) (ep : endpoint) (resp : response) : outcome :=
-  match find_method (method_name ep), url_of configured ep with
-  | Some m, Ok url =>
-      let '(tr, err, d) := get_from_api lim url (m_target m) resp in
-      match err, d with
-      | None, Some d =>
-          match select (m_ret m) d with
-          | SData l => {| o_trace := tr; o_err := None; o_data := Some l; o_panic := false; o_bad := false |}
-          | SError => {| o_trace := tr; o_err := Some ""%string; o_data := None; o_panic := false; o_bad := false |}
-          | SPanic => {| o_trace := tr; o_err := None; o_data := None; o_panic := true; o_bad := false |}
-          | SBad => bad_outcome
-          end
-      | Some t, _ => {| o_trace := tr; o_err := Some t; o_data := None; o_panic := false; o_bad := false |}
-      | None, None => bad_outcome
-      end
-  | Some _, Reject =>
-      {| o_trace := []; o_err := Some ""%string; o_data := None; o_panic := false; o_bad := false |}
-  | _, _ => bad_outcome
-  end.
-
 (* ---------- the same call in a world with redirects and cancellation ---------- *)
 
 (* hand model of http.Client.Do (net/http, not osmapi code): the default policy follows up to
@@ -386,8 +342,8 @@ Definition call (configured : str) (lim : limiter) (ep : endpoint) (resp : respo
    request is in flight has sent it *)
 Inductive transport_result := TResp (r : response) | TErr.
 
-Definition client_do (w : world) (url : str) : list event * transport_result :=
-  let req u := EvRequest http_method u in
+Definition client_do_m (meth : string) (w : world) (url : str) : list event * transport_result :=
+  let req u := EvRequest meth u in
   match w_ctx w with
   | CtxCancelledBefore => ([], TErr)
   | CtxCancelledDuring => ([req url], TErr)
@@ -403,6 +359,8 @@ Definition client_do (w : world) (url : str) : list event * transport_result :=
       end
   end.
 
+Definition client_do := client_do_m http_method.
+
 Definition after_response (target : string) (resp : response) : errv * option decoded :=
   match status_error (r_status resp) with
   | Some t => (Some t, None)
@@ -412,28 +370,89 @@ Definition after_response (target : string) (resp : response) : errv * option de
             end
   end.
 
-Definition get_from_api_w (w : world) (url : str) (target : string)
+(* ---------- getFromAPI: the interpreter of its generated effect sequence ----------
+
+   gen/GenOsmapi.v lists the effectful calls of getFromAPI in source order ([api_steps]); every
+   other call expression in the body is a translator error.  The trace of a call IS what this
+   interpreter produces from that list: a second client.Do in the source is a second SDo step
+   and a second group of requests here. *)
+
+Record gstate := {
+  g_trace : list event;
+  g_method : option string;             (* req exists, with this method *)
+  g_resp : option response;             (* resp exists *)
+  g_out : option (errv * option decoded);   (* getFromAPI has returned *)
+  g_bad : bool }.                       (* something the model does not cover (nil dereference ...) *)
+
+Definition g_return (g : gstate) (e : errv) (d : option decoded) : gstate :=
+  {| g_trace := g_trace g; g_method := g_method g; g_resp := g_resp g; g_out := Some (e, d); g_bad := g_bad g |}.
+Definition g_fail (g : gstate) : gstate :=
+  {| g_trace := g_trace g; g_method := g_method g; g_resp := g_resp g; g_out := g_out g; g_bad := true |}.
+Definition g_emit (g : gstate) (evs : list event) : gstate :=
+  {| g_trace := g_trace g ++ evs; g_method := g_method g; g_resp := g_resp g; g_out := g_out g; g_bad := g_bad g |}.
+
+Definition live (w : world) : world :=
+  {| w_lim := w_lim w; w_ctx := CtxLive; w_follow := w_follow w; w_hops := w_hops w;
+     w_hop_status := w_hop_status w; w_resp := w_resp w |}.
+
+(* [refused]: the URL is one net/url / the transport refuse (Text.url_refused) *)
+Definition exec_step (refused : bool) (w : world) (url : str) (target : string) (g : gstate) (s : step)
+  : gstate :=
+  match g_out g with
+  | Some _ => g
+  | None =>
+    if g_bad g then g else
+    match s with
+    | SWait guarded err_returns =>
+        match w_lim w with
+        | NoLimiter => if guarded then g else g_fail g
+        | _ =>
+            (* Limiter.Wait(ctx) fails when the limiter refuses or the context is already done *)
+            let ok := match w_lim w, w_ctx w with
+                      | LimiterFails, _ | _, CtxCancelledBefore => false
+                      | _, _ => true
+                      end in
+            let g' := g_emit g [EvWait] in
+            if ok || negb err_returns then g' else g_return g' (Some ""%string) None
+        end
+    | SNewRequest meth err_returns =>
+        if refused then (if err_returns then g_return g (Some ""%string) None else g_fail g)
+        else {| g_trace := g_trace g; g_method := Some meth; g_resp := g_resp g; g_out := None; g_bad := false |}
+    | SDo with_ctx err_returns =>
+        match g_method g with
+        | None => g_fail g
+        | Some meth =>
+            let '(evs, tr) := client_do_m meth (if with_ctx then w else live w) url in
+            let g' := g_emit g evs in
+            match tr with
+            | TErr => if err_returns then g_return g' (Some ""%string) None else g_fail g'
+            | TResp r => {| g_trace := g_trace g'; g_method := g_method g'; g_resp := Some r; g_out := None; g_bad := false |}
+            end
+        end
+    | SClose => match g_resp g with Some _ => g | None => g_fail g end
+    | SStatus =>
+        match g_resp g with
+        | Some r => match status_error (r_status r) with Some t => g_return g (Some t) None | None => g end
+        | None => g_fail g
+        end
+    | SDecode =>
+        match g_resp g with
+        | Some r => match decode target (r_body r) with
+                    | Some d => g_return g None (Some d)
+                    | None => g_return g (Some ""%string) None
+                    end
+        | None => g_fail g
+        end
+    end
+  end.
+
+Definition get_from_api_w (refused : bool) (w : world) (url : str) (target : string)
   : list event * errv * option decoded :=
-  let '(reqs, tr) := client_do w url in
-  let after := match tr with
-               | TResp r => after_response target r
-               | TErr => (Some ""%string, None)
-               end in
-  (* Limiter.Wait(ctx) fails when the limiter refuses or the context is already done *)
-  let wait_ok := match w_lim w, w_ctx w with
-                 | LimiterFails, _ | _, CtxCancelledBefore => false
-                 | _, _ => true
-                 end in
-  match w_lim w, wait_before_do with
-  | NoLimiter, _ => (reqs, fst after, snd after)
-  | _, true =>
-      if wait_ok || negb wait_error_returns
-      then (EvWait :: reqs, fst after, snd after)
-      else ([EvWait], Some ""%string, None)
-  | _, false =>
-      if wait_ok || negb wait_error_returns
-      then (reqs ++ [EvWait], fst after, snd after)
-      else (reqs ++ [EvWait], Some ""%string, None)
+  let g := fold_left (exec_step refused w url target) api_steps
+             {| g_trace := []; g_method := None; g_resp := None; g_out := None; g_bad := false |} in
+  match g_bad g, g_out g with
+  | false, Some (e, d) => (g_trace g, e, d)
+  | _, _ => (g_trace g, None, None)        (* fell off the end / not covered: [finish] calls it bad *)
   end.
 
 (* what a method does with getFromAPI's outcome *)
@@ -453,11 +472,18 @@ Definition finish (m : method) (tr : list event) (err : errv) (d : option decode
 Definition call_w (configured : str) (w : world) (ep : endpoint) : outcome :=
   match find_method (method_name ep), url_of configured ep with
   | Some m, Ok url =>
-      let '(tr, err, d) := get_from_api_w w url (m_target m) in finish m tr err d
+      (* whether the URL leaves the client at all is decided on the configured base: what the
+         package appends is printable ASCII with well-formed escapes *)
+      let '(tr, err, d) := get_from_api_w (url_refused (base_url configured)) w url (m_target m) in
+      finish m tr err d
   | Some _, Reject =>
       {| o_trace := []; o_err := Some ""%string; o_data := None; o_panic := false; o_bad := false |}
   | _, _ => bad_outcome
   end.
+
+(* the call in the world without redirects, with a live context *)
+Definition call (configured : str) (lim : limiter) (ep : endpoint) (resp : response) : outcome :=
+  call_w configured (plain_world lim resp) ep.
 
 (* ds.NotFound(err) *)
 Definition not_found (e : errv) : bool :=
